@@ -195,6 +195,14 @@ Theorem C14_gc_count : forall tr s s',
   length (junk s') = (length (junk s) + length (filter del_failed tr))%nat.
 Proof. exact junk_count. Qed.
 Print Assumptions C14_gc_count.
+
+(* ... and with lost PUT responses as well (the update stops before deleting the old index): at
+   most one more dangling index per failed deletion or lost PUT, for every trace *)
+Theorem C14_gc_bound : forall tr s s',
+  run false s tr = Some s' ->
+  (length (junk s') <= length (junk s) + length (filter (fun e => del_failed e || put_lost e) tr))%nat.
+Proof. exact junk_bound. Qed.
+Print Assumptions C14_gc_bound.
 (* LOST RESPONSE of the index PUT / DELETE (EPutLost: the registry stores the new index, the
    client sees an error; EDelLost: the registry deletes the old index, the client sees an error
    - the index-delete error after a PUT, a plain error when the deletion WAS the update; ghost
